@@ -357,4 +357,17 @@ def run(ctx):
                     m += 1
                     ctx.check('C12.CN', not bad, f.name, 'escaped-value-as-path:%s' % e.get('name'), f.where(e),
                               'the path given to %s in %s does not come from the shell-escaping Edge::GetBinding' % (e.get('name'), f.name))
-    ctx.floor('C12.CN', 8)
+    # one canonicaliser: the std::string overload decides nothing itself, it always hands the
+    # bytes to the char* overload (a private notion of "already canonical" is a second, diverging
+    # definition of node identity)
+    wrap = [f for f in prog.fns('CanonicalizePath') if len(f.params) == 2]
+    core = [f for f in prog.fns('CanonicalizePath') if len(f.params) == 3]
+    ctx.check('C12.CN', len(wrap) == 1 and len(core) == 1, 'CanonicalizePath', 'canonicaliser:overloads', 'src/util.cc',
+              'one string overload and one char* overload of CanonicalizePath')
+    for w in wrap:
+        def is_core(x):
+            return x['k'] == 'call' and x.get('name') == 'CanonicalizePath' and len(x.get('args') or []) == 3
+        must_pass(ctx, 'C12.CN', w, is_core, lambda x: x['k'] in ('ret', 'exit'),
+                  'the string overload of CanonicalizePath always delegates to the char* overload',
+                  'canonicaliser:wrapper-bypasses-core')
+    ctx.floor('C12.CN', 10)
